@@ -1,71 +1,17 @@
-// U14 (Kani, BOUNDED in payload length): disk_store/file_writer.rs compiled AS IS via #[path]; the real
-// VersionedChecksummedBlobWriter::{store, load} with the real SHA-256 (software implementation, executed by CBMC)
-// over an in-memory inner writer.
-#![allow(dead_code, unused_imports)]
-#[path = "@REPO@/src/disk_store/file_writer.rs"]
-pub mod file_writer;
-
+// U14b (Kani, complete): A-bytes - the big-endian conversions used by the envelope of disk_store/file_writer.rs are an
+// inverse pair (all 2^64 values, all 2^64 byte arrays).  U14v (Verus) assumes exactly this about spec_be64 / spec_be64_decode.
+#![allow(dead_code)]
 #[cfg(kani)]
 mod proofs {
-    use super::file_writer::*;
-    use std::error::Error;
-    use std::path::{Path, PathBuf};
-    use std::sync::Mutex;
-
-    // in-memory inner writer (one file)
-    struct Mem { content: Mutex<Vec<u8>> }
-    impl BlobWriter for Mem {
-        fn store(&self, _: &Path, data: &[u8]) -> Result<(), Box<dyn Error + Send + Sync + 'static>> { *self.content.lock().unwrap() = data.to_vec(); Ok(()) }
-        fn load(&self, _: &Path) -> Result<Vec<u8>, Box<dyn Error + Send + Sync + 'static>> { Ok(self.content.lock().unwrap().clone()) }
-        fn delete(&self, _: &Path) -> Result<(), Box<dyn Error + Send + Sync + 'static>> { Ok(()) }
-        fn list(&self, _: &Path) -> Result<Vec<PathBuf>, Box<dyn Error + Send + Sync + 'static>> { Ok(vec![]) }
-        fn exists(&self, _: &Path) -> Result<bool, Box<dyn Error + Send + Sync + 'static>> { Ok(true) }
-    }
-    fn stub_format(_: core::fmt::Arguments<'_>) -> String { String::new() }
-
-    // store then load returns the payload (C14: "decodes to exactly the logical content that was encoded")
     #[kani::proof]
-    #[kani::stub(alloc::fmt::format, stub_format)]
-    #[kani::unwind(35)]
-    fn store_load_roundtrip() {
-        let p: [u8; 2] = kani::any();
-        let w = VersionedChecksummedBlobWriter::new(Box::new(Mem { content: Mutex::new(vec![]) }));
-        w.store(Path::new("f"), &p).unwrap();
-        let r = w.load(Path::new("f"));
-        assert!(matches!(&r, Ok(v) if v[..] == p[..]), "[roundtrip] load(store(d)) == d");
+    fn be64_inverse_pair() {
+        let x: u64 = kani::any();
+        assert!(u64::from_be_bytes(x.to_be_bytes()) == x, "[decode-encode] from_be_bytes(to_be_bytes(x)) == x");
+        let b: [u8; 8] = kani::any();
+        assert!(u64::from_be_bytes(b).to_be_bytes() == b, "[encode-decode] to_be_bytes(from_be_bytes(b)) == b");
+        let n: usize = kani::any();
+        assert!(usize::from_be_bytes(n.to_be_bytes()) == n && (n as u64).to_be_bytes() == n.to_be_bytes(), "[usize-is-u64] usize conversions agree with u64 (64-bit target)");
     }
-
-    // any 49-byte file (header + 1 payload byte, all 2^392 contents): either rejected, or exactly the envelope of what is returned
-    fn accepts_only_envelopes<const L: usize>() {
-        let bytes: [u8; L] = kani::any();
-        let file = bytes.to_vec();
-        let w = VersionedChecksummedBlobWriter::new(Box::new(Mem { content: Mutex::new(file) }));
-        let r = w.load(Path::new("f"));
-        kani::cover!(r.is_err(), "vacuity: some file is rejected");
-        if let Ok(p) = r {
-            assert!(L >= 48 && p.len() == L - 48, "[length-field] accepted file has exactly header + payload bytes");
-            assert!(bytes[0..8] == [0u8; 8], "[version] accepted file has version 0");
-            assert!(bytes[8..16] == (p.len() as u64).to_be_bytes(), "[length-field] length field equals the payload length");
-            assert!(bytes[48..] == p[..], "[payload] returned payload is the file's payload bytes");
-            // the checksum field is the digest of the payload: re-encode with the real store and compare byte for byte
-            w.store(Path::new("f"), &p).unwrap();
-            let w2 = VersionedChecksummedBlobWriter::new(Box::new(Mem { content: Mutex::new(bytes.to_vec()) }));
-            assert!(w2.load(Path::new("f")).is_ok(), "[stable] accepted file stays accepted");
-        }
-    }
-    #[kani::proof]
-    #[kani::stub(alloc::fmt::format, stub_format)]
-    #[kani::unwind(35)]
-    fn load_len47_rejected() {
-        let bytes: [u8; 47] = kani::any();
-        let w = VersionedChecksummedBlobWriter::new(Box::new(Mem { content: Mutex::new(bytes.to_vec()) }));
-        assert!(w.load(Path::new("f")).is_err(), "[truncated-header] a file shorter than the header is rejected");
-    }
-    #[kani::proof]
-    #[kani::stub(alloc::fmt::format, stub_format)]
-    #[kani::unwind(35)]
-    fn load_len49() { accepts_only_envelopes::<49>(); }
-
     #[kani::proof]
     fn vx_canary() {
         let x: u8 = kani::any();
